@@ -201,9 +201,43 @@ pub fn tokt(s: &str) -> Result<(String, usize), &'static str> {
 }
 
 /// the user context type of `user_ctx` cases
-#[derive(Debug, Default)]
+#[derive(Debug)]
 pub struct Ctx {
     pub touched: usize,
+    /// state of the stateful functions: `tick_ctx` / `has_budget` say yes this many times per parse
+    pub budget: usize,
+}
+
+pub const BUDGET: usize = 2;
+
+impl Default for Ctx {
+    fn default() -> Self {
+        Ctx { touched: 0, budget: BUDGET }
+    }
+}
+
+/// a stateful extern function: matches the empty string while the context's budget lasts
+pub fn tick_ctx(s: &str, ctx: &mut Ctx) -> Result<(String, usize), &'static str> {
+    ctx.touched += 1;
+    log("hrt::user::tick_ctx", s.to_string());
+    if ctx.budget > 0 {
+        ctx.budget -= 1;
+        Ok((String::new(), 0))
+    } else {
+        Err("no budget")
+    }
+}
+
+/// a stateful check function: says yes while the context's budget lasts
+pub fn has_budget<T: Debug>(v: &T, ctx: &mut Ctx) -> bool {
+    ctx.touched += 1;
+    log("hrt::user::has_budget", canon_of(v));
+    if ctx.budget > 0 {
+        ctx.budget -= 1;
+        true
+    } else {
+        false
+    }
 }
 
 pub fn tok_ctx(s: &str, ctx: &mut Ctx) -> Result<(String, usize), &'static str> {
@@ -261,10 +295,17 @@ pub fn chk_never<T: Debug>(v: &T) -> bool {
 /// Hooks implementation for the reference interpreter backed by the same answer table
 pub struct RefHooks<'a> {
     pub answers: &'a Answers,
+    /// the model's copy of `Ctx::budget`
+    pub budget: usize,
 }
 
 impl<'a> refpeg::interp::Hooks for RefHooks<'a> {
     fn check(&mut self, func: &str, arg: &str) -> bool {
+        if func == "hrt::user::has_budget" {
+            let yes = self.budget > 0;
+            self.budget = self.budget.saturating_sub(1);
+            return yes;
+        }
         self.answers.check.get(&(func.to_string(), arg.to_string())).copied().unwrap_or_else(|| check_default(func, arg))
     }
     fn char_check(&mut self, func: &str, c: char) -> bool {
@@ -272,6 +313,13 @@ impl<'a> refpeg::interp::Hooks for RefHooks<'a> {
         self.answers.check.get(&(func.to_string(), arg.clone())).copied().unwrap_or_else(|| check_default(func, &arg))
     }
     fn ext(&mut self, func: &str, rest: &str) -> Result<(String, usize), String> {
+        if func == "hrt::user::tick_ctx" {
+            if self.budget > 0 {
+                self.budget -= 1;
+                return Ok((String::new(), 0));
+            }
+            return Err("no budget".into());
+        }
         ext_resolve(func, rest, self.answers).map_err(|e| e.to_string())
     }
 }
